@@ -442,6 +442,24 @@ class AnnealResults(list):
         self.best = None
         super().clear()
 
+    def __setitem__(self, index, value):
+        """__setitem__.
+
+        Item and slice assignment; ``self.best`` is recomputed.
+
+        """
+        super().__setitem__(index, value)
+        self.best = _recompute_best(self)
+
+    def __delitem__(self, index):
+        """__delitem__.
+
+        Item and slice deletion; ``self.best`` is recomputed.
+
+        """
+        super().__delitem__(index)
+        self.best = _recompute_best(self)
+
     def filter(self, func):
         """filter.
 
@@ -631,7 +649,8 @@ class AnnealResults(list):
 
         """
         if isinstance(other, AnnealResults):
-            if other.best < self.best:
+            if other.best is not None and (
+                    self.best is None or other.best < self.best):
                 self.best = other.best
             return super().__iadd__(other)
 
@@ -650,7 +669,8 @@ class AnnealResults(list):
 
         """
         if isinstance(other, AnnealResults):
-            if other.best < self.best:
+            if other.best is not None and (
+                    self.best is None or other.best < self.best):
                 self.best = other.best
             super().extend(other)
         else:
